@@ -147,6 +147,30 @@ def _expected_name(t, rpc):
     return rpc
 
 
+def client_encodes_every_argument(ctx, rule):
+    """every generated client stub puts every argument into its params builder on every path to the call (positional: a
+    skipped `None` shifts the later values; by-name: the object no longer has the same key/value pairs that were passed)"""
+    F, R = ctx.F, ctx.R
+    tr = ctx.tracer(follow_callers=False, follow_fields=False)
+    traits = collect(F, tr)
+    n = 0
+    for (crate, tname), t in sorted(traits.items()):
+        for rust, ci in sorted(t["client"].items()):
+            if ci["call"] is None:
+                continue
+            cb = ci["body"]
+            n += 1
+            R.fn(cb)
+            wi = {}
+            for ins in ci["inserts"]:
+                wi[ins["site"].bb] = wi.get(ins["site"].bb, 0) + 1
+            pc = flow.path_counts(cb, 0, wi, stop={ci["call"].bb})
+            R.paths_enumerated += 1
+            want = cb.argc - 1
+            R.check(pc == (want, want), rule, "%s::%s::%s:encodes-all" % (crate, tname, rust), "every path to the call encodes all %d arguments" % want, "the generated client stub %s::%s encodes %s of its %d arguments depending on the path: an argument that is `None` is left out of the params (by-name: the key/value pair is missing on the wire; positional: later values shift)" % (tname, rust, pc, want), "%s:%d" % (cb.file, cb.lo))
+    return n
+
+
 def decode_errors_propagate(ctx, rule):
     """in every generated server closure a failed read of a parameter (ParamsSequence::next / optional_next, Params::parse
     for by-name) ends the call with the error: the Result is matched (its Err arm leaves the closure / rejects the
@@ -222,6 +246,10 @@ def w6_runtime_key_encoding(ctx):
 def w_rules(ctx):
     F, R = ctx.F, ctx.R
     if ctx.config == "libs-all":
+        # W8: every name the generated into_rpc registers is dispatched: the server's dispatcher answers `method not
+        # found` only on a miss of the registry lookup itself (no name prefix / kind is refused before or after it)
+        from . import c13
+        c13.r5_not_found_iff_unbound(ctx, "C17.W8")
         return w6_runtime_key_encoding(ctx)
     tr = ctx.tracer(follow_callers=False, follow_fields=False)
     traits = collect(F, tr)
@@ -378,7 +406,7 @@ def w_rules(ctx):
     if ctx.config == "corpus":
         R.floor("C17.W7", nd, 40, "parameter reads in the generated server closures of the corpus")
     R.extra["C17.declarations." + ctx.config] = ndecl
-    floors = {"corpus": 48, "pmcore": 5, "repo-programs": 34}
+    floors = {"corpus": 52, "pmcore": 5, "repo-programs": 34}
     R.floor("C17." + ctx.config, ndecl, floors.get(ctx.config, 1), "#[rpc] declarations analysed in configuration %s" % ctx.config)
 
 
